@@ -72,5 +72,73 @@ package vnet
 //@   modifies lastUntil
 //@   ensures [nil] err == nil
 
+// ---- lock discipline (C19)
+//@ field Router name immutable
+//@ field Router interfaces immutable
+//@ field Router ipv4Net immutable
+//@ field Router staticIPs immutable
+//@ field Router staticLocalIPs immutable
+//@ field Router lastID guarded_by mutex
+//@ field Router queue immutable
+//@ field Router parent config setRouter
+//@ field Router children guarded_by mutex
+//@ field Router natType config setRouter
+//@ field Router nat config setRouter
+//@ field Router nics guarded_by mutex
+//@ field Router stopFunc guarded_by mutex
+//@ field Router resolver immutable
+//@ field Router chunkFilters guarded_by mutex
+//@ field Router minDelay immutable
+//@ field Router maxJitter immutable
+//@ field Router pushCh immutable
+//@ field Router loggerFactory immutable
+//@ field Router log immutable
+//@ field Net interfaces config setRouter,NewNet,addNIC
+//@ field Net staticIPs immutable
+//@ field Net router config setRouter
+//@ field Net udpConns immutable
+//@ field udpConnMap portMap guarded_by mutex
+//@ field chunkQueue chunks guarded_by mutex
+//@ field chunkQueue maxSize immutable
+//@ field chunkQueue maxBytes immutable
+//@ field chunkQueue currentBytes guarded_by mutex
+//@ field networkAddressTranslator name immutable
+//@ field networkAddressTranslator natType immutable
+//@ field networkAddressTranslator mappedIPs immutable
+//@ field networkAddressTranslator localIPs immutable
+//@ field networkAddressTranslator outboundMap guarded_by mutex
+//@ field networkAddressTranslator inboundMap guarded_by mutex
+//@ field networkAddressTranslator udpPortCounter guarded_by mutex
+//@ field networkAddressTranslator log immutable
+//@ field mapping proto guarded_by_held .mutex
+//@ field mapping local guarded_by_held .mutex
+//@ field mapping mapped guarded_by_held .mutex
+//@ field mapping bound guarded_by_held .mutex
+//@ field mapping filters guarded_by_held .mutex
+//@ field mapping expires guarded_by_held .mutex
+//@ field UDPConn locAddr immutable
+//@ field UDPConn remAddr immutable
+//@ field UDPConn obs immutable
+//@ field UDPConn closed guarded_by mu
+//@ field UDPConn readDeadline immutable
+//@ field TokenBucketFilter NIC immutable
+//@ field TokenBucketFilter currentTokensInBucket confined run,refillTokens,drainQueue
+//@ field TokenBucketFilter c immutable
+//@ field TokenBucketFilter queue immutable
+//@ field TokenBucketFilter queueSize config TBFQueueSizeInBytes$1
+//@ field TokenBucketFilter rate guarded_by mutex
+//@ field TokenBucketFilter maxBurst guarded_by mutex
+//@ field TokenBucketFilter minRefillDuration immutable
+//@ field TokenBucketFilter done immutable
+//@ field TokenBucketFilter log immutable
+//@ field DelayFilter NIC immutable
+//@ field DelayFilter delay immutable
+//@ field DelayFilter push immutable
+//@ field DelayFilter queue immutable
+//@ field LossFilter NIC immutable
+//@ field LossFilter chance immutable
+//@ global macAddrCounter atomic
+//@ lockset C19: Router, Net, udpConnMap, chunkQueue, networkAddressTranslator, mapping, UDPConn, TokenBucketFilter, DelayFilter, LossFilter
+
 //@ property C10: UDPConn.ReadFrom, UDPConn.Read, UDPConn.SetReadDeadline, UDPConn.SetDeadline
 //@ property C16: NewLossFilter, LossFilter.onInboundChunk
